@@ -111,7 +111,24 @@ def run(ctx):
         s = ("export const before = {k: [1, 2]};\n" + s[: s.rindex("main()")] + "console.log('body runs');\nexport const result = main();\n"
              + "\n".join(extra) + "\nexport default [result, 3];")
         rl.append(s)
-    rgot = common.harness(["roles"], [json.dumps({"src": s}) for s in rl], timeout=600)
+    rcases = [{"src": s} for s in rl]
+    # modules with imports of their own, living in another directory than the program that imports them; a decoy with the
+    # same file name sits in the importer's directory (a relative specifier is relative to the module it is written in)
+    for i in range(30 if ctx.tier == "quick" else 400):
+        d = rng.choice(["/m/sub", "/m/sub/deep", "/lib", "/m"])
+        u = rng.randint(1, 50)
+        utilspec = rng.choice(["./util", "./util", "./inner/../util", "../%s/util" % d.rsplit("/", 1)[1] if d.count("/") > 1 else "./util"])
+        src = ("import { u, more } from '%s'; import * as U from '%s';\nexport const got = u + 1; export const viaNs = U.u; export let cnt = 0; export function bumpC() { cnt += more(); }\n"
+               "console.log('body runs', u);\nexport default [got, viaNs];" % (utilspec, utilspec))
+        mods = {d + "/util": "export const u = %d; export function more() { return 2; } console.log('util %d');" % (u, u),
+                "/m/util": "export const u = -7; export function more() { return 100; } console.log('decoy');"}
+        if d == "/m":
+            del mods["/m/util"]
+            mods[d + "/util"] = "export const u = %d; export function more() { return 2; } console.log('util %d');" % (u, u)
+        spec = "." + (d + "/p")[2:] if d.startswith("/m") else "../lib/p"
+        rcases.append({"src": src, "path": d + "/p", "spec": spec, "mods": mods})
+        rl.append(src)
+    rgot = common.harness(["roles"], [json.dumps(c) for c in rcases], timeout=600)
     for s, g in zip(rl, rgot):
         ctx.cov["evaluations"] += 1
         outs = g.split("\t")
